@@ -38,7 +38,10 @@ def apply_edit(root, var):
         f.write(src)
     # must still compile
     try:
-        compile(src, path, 'exec')
+        import warnings
+        with warnings.catch_warnings():
+            warnings.simplefilter('ignore')
+            compile(src, path, 'exec')
     except SyntaxError as e:
         return 'syntax-error: %s' % e
     return 'ok'
